@@ -11,7 +11,7 @@ Lemma saam_exact w x y z sa sm cd sd : general_position w x y z -> dip cd sd -> 
 Proof.
   intros G [Hd Hc] Hsa Hsm. destruct (gp_ne0 _ _ _ _ G) as (Nw & Nx & Ny & Nz). destruct G as (Hq' & _).
   assert (Hq := Hq'). unfold unit4 in Hq. unfold C04_saam_R. cbv zeta. orient_unit.
-  roots sa sm cd. gate_pos sa. gate_pos sm.
+  do 3 (root1 sa sm cd). gate_pos sa. gate_pos sm.   (* the two norms and sqrt(1-mD^2) = cd; the last sqrt is the final normalisation *)
   eexists. split; [reflexivity|].
   unfold pm_eq. cbv [qconj qneg e nth].
   apply (normalise_scaled (4 * cd * x)); [unfold unit4 in *; lra | .. ].
